@@ -42,9 +42,25 @@ impl SimulationBoundary {
         // through the walls, i.e. the closed interval [anchor - width, anchor + 2 * width], also
         // when those images are computed with rounding errors. Use a domain of 4 widths with a
         // margin of half a width on both sides, so that both ends are mapped strictly inside [1, 2).
+        //
+        // The in-sphere test is only invariant under similarity transformations: all axes the
+        // generators extend along must be mapped to the grid with the same scale (that of the
+        // widest one), or the test decides about an ellipsoid instead of a sphere when the box is
+        // not a cube. Unused axes only carry the generators themselves and their mirror images, a
+        // configuration that is symmetric along those axes: their scale does not matter.
+        let scale = match dimensionality {
+            Dimensionality::OneD => width.x,
+            Dimensionality::TwoD => width.x.max(width.y),
+            Dimensionality::ThreeD => width.max_element(),
+        };
+        let grid_width = match dimensionality {
+            Dimensionality::OneD => DVec3::new(scale, width.y, width.z),
+            Dimensionality::TwoD => DVec3::new(scale, scale, width.z),
+            Dimensionality::ThreeD => DVec3::splat(scale),
+        };
         Self {
             anchor: anchor - 1.5 * width,
-            inverse_width: 1. / (4. * width),
+            inverse_width: 1. / (4. * grid_width),
             dimensionality,
             clipping_planes,
         }
